@@ -69,6 +69,41 @@ def stateAfter : St → List Op → St
   | st, [] => st
   | st, op :: ops => stateAfter (step st op).1 ops
 
+/-! ### the retry loop of Do / DoMulti / Receive
+
+`retry: if err := c.check(); err != nil { return err }; resp = c.wire.X(…); if retryable { wait; goto retry }`.
+While the caller sleeps in `WaitOrSkipRetry` another goroutine may release or close the client. -/
+
+/-- what another goroutine does to the client during one retry delay -/
+inductive Between | nothing | release | close
+  deriving DecidableEq, Repr
+
+/-- which checked method is looping -/
+inductive Meth | do_ | doMulti (n : Nat) | receive
+  deriving DecidableEq, Repr
+
+def Meth.call : Meth → Call
+  | .do_ => .wDo
+  | .doMulti n => .wMulti n
+  | .receive => .wReceive
+
+def between (st : St) : Between → St × List Call
+  | .nothing => (st, [])
+  | .release => release st
+  | .close => ((step st .close).1, (step st .close).2.1)
+
+/-- one call of a checked method whose first `delays.length` passes are answered by a retryable
+    error (LOADING / a transport error on a healthy wire) and whose last pass is answered for good;
+    `delays[i]` is what happens to the client during the i-th retry delay. The mark is checked at the
+    top of EVERY pass. Result: final state, all wire calls in order, the value returned. -/
+def retryLoop (m : Meth) : St → List Between → St × List Call × Ret
+  | st, [] => if st.mark then (st, [], .recycled) else (st, [m.call], .ok)
+  | st, b :: rest =>
+    if st.mark then (st, [], .recycled) else
+    let (st1, cs1) := between st b
+    let r := retryLoop m st1 rest
+    (r.1, m.call :: cs1 ++ r.2.1, r.2.2)
+
 /-- `pipe.CleanSubscriptions`: a pipe that ran a blocking command is closed; a pipe in background
     mode gets the unsubscribe family + DISCARD (SUNSUBSCRIBE only for version >= 7); otherwise nothing -/
 inductive Clean | closePipe | cmds (cs : List String) | nothing
